@@ -677,6 +677,13 @@ func (env *Env) call(e *ast.CallExpr) TV {
 			h, _ := tvTerm(env.expr(args[0]))
 			k, _ := tvTerm(env.expr(args[1]))
 			return TV{VTerm{x.hdrGet(env.state(), h, k)}, types.Typ[types.String]}
+		case "canon":
+			// canon(s): textproto.CanonicalMIMEHeaderKey(s)
+			k, ok := tvTerm(env.expr(args[0]))
+			if !ok {
+				return env.fail("canon(s)")
+			}
+			return TV{VTerm{x.canon(k)}, types.Typ[types.String]}
 		case "hdrHas":
 			h, _ := tvTerm(env.expr(args[0]))
 			k, _ := tvTerm(env.expr(args[1]))
